@@ -117,10 +117,24 @@ class C20(Harness):
                 out.append({'cls': combos(C)[name][0], 'combo': name, 'set': [], 'interrupted_by': exc})
         return out
 
+    @staticmethod
+    def reset_repr_guards(param):
+        """the recursion guards of repr / pprint keep a module-lifetime set of "being printed" keys: a defect that leaks entries must not make
+        later executions of the same worker depend on earlier ones"""
+        for fn in (param.Parameterized.__repr__, param.parameterized.Parameters.pprint, getattr(param.parameterized.Parameters, '_repr_html_', None)):
+            for cell in (getattr(fn, '__closure__', None) or ()):
+                try:
+                    v = cell.cell_contents
+                except ValueError:
+                    continue
+                if isinstance(v, set):
+                    v.clear()
+
     def run_case(self, case):
         import param
         import harness.c20_classes as C
         reset_globals()
+        self.reset_repr_guards(param)
         vt = value_table(C)
         cls = getattr(C, case['cls'])
         if case.get('combo'):
